@@ -402,6 +402,67 @@ func C08(c *core.Ctx) {
 		c.Decide(len(pushes) > 0 && g.OK && g.PassEdges > 0, "R8.3", "dnl-one-expiry-item-per-record", p.Pos(fn.Pos()), "an expiry item is queued only for a record that was not in the list", "DeadNonceList.Insert queues an expiry item also for a (name, nonce) pair that is already recorded: the older item deletes the record when it expires, and the newer one later deletes a fresh record of the same pair before its lifetime is over — within that lifetime a looping Interest carrying the dead nonce is forwarded again")
 	}
 
+	// ---- R8.5c hash-table FIB: when the longest name under a virtual node is removed, the
+	// node's depth is recomputed from the REMAINING names only (reset, then max over all of
+	// them): with the old depth as the starting value it never decreases, and the node
+	// outlives its last real name.
+	if pt := c.Fn("R8.5", "fw/table", "FibStrategyHashTable", "pruneTables"); pt != nil {
+		var acc ssa.Instruction
+		core.Instrs(pt, func(in ssa.Instruction) {
+			if _, v, ok := storeToField(in, "virtualDetails", "md"); ok && core.InLoop(in.Block()) {
+				if cl, isC := core.Strip(v).(*ssa.Call); isC {
+					if b, isB := cl.Call.Value.(*ssa.Builtin); isB && b.Name() == "max" {
+						acc = in
+					}
+				}
+			}
+		})
+		if acc == nil {
+			c.Ok("R8.5", "virtual-depth-recomputed-from-remaining-names", p.Pos(pt.Pos()), "no in-place max() accumulation of a virtual node's depth in pruneTables (recomputed otherwise: decided by C05 R5.7)")
+		} else {
+			h := loopHeader(acc.Block())
+			reset := false
+			if h != nil && len(h.Instrs) > 0 {
+				reset = core.Precedes(pt, h.Instrs[0], func(x ssa.Instruction) bool {
+					_, v, ok := storeToField(x, "virtualDetails", "md")
+					if !ok || core.InLoop(x.Block()) && loopHeader(x.Block()) == h {
+						return false
+					}
+					k, isC := core.ConstInt(v)
+					return isC && k == 0
+				})
+			}
+			c.Decide(reset, "R8.5", "virtual-depth-recomputed-from-remaining-names", c.Pos(acc), "the depth is reset before the maximum over the remaining names is taken", "pruneTables raises a virtual node's depth by max(md, l) over the remaining names starting from the OLD depth: the depth never decreases, the 'no name at this depth any more' test never fires again, and the virtual entry survives the removal of its last real name (one dead entry per virtual prefix)")
+		}
+	}
+	// ---- R8.3b the LRU's index of queue positions follows the queue: every removal of a
+	// queue element is followed by an update of `locations` (a new position after a
+	// re-push, or the deletion of the record when the entry is evicted)
+	{
+		nRm := 0
+		for _, fn := range p.FuncsIn(core.ModPath + "/fw/table") {
+			if core.FuncID(fn).Recv != "CsLRU" {
+				continue
+			}
+			core.Instrs(fn, func(in ssa.Instruction) {
+				ci, ok := in.(ssa.CallInstruction)
+				if !ok {
+					return
+				}
+				id, ok := core.Callee(ci.Common())
+				if !ok || id.Pkg != "container/list" || id.Name != "Remove" {
+					return
+				}
+				nRm++
+				fr := core.MustFollow(fn, core.After(in), func(x ssa.Instruction) bool {
+					return isMapDelete(x, "locations") || isMapInsert(x, "locations")
+				}, nil)
+				c.Decide(fr.OK, "R8.3", "lru-index-follows-queue:"+core.FuncName(fn), c.Pos(in), "the removal of a queue element is followed by an update of the position index", core.FuncName(fn)+" removes an element from the LRU queue without updating the position index: one record (and its detached list element) stays behind per Data name ever evicted")
+			})
+		}
+		c.Floor("R8.3", "removals from the LRU queue", nRm, 2)
+	}
+
 	// ---- R8.4 prune loops use the cursor
 	for _, t := range [][3]string{{"fw/table", "pitCsTreeNode", "pruneIfEmpty"}, {"fw/table", "fibStrategyTreeEntry", "pruneIfEmpty"}, {"fw/table", "fibStrategyTreeEntry", "pruneIfEmptyEnc"}, {"fw/table", "RibEntry", "pruneIfEmpty"}} {
 		fn := p.Func(t[0], t[1], t[2])
